@@ -159,6 +159,8 @@ def worker(args):
         merge_case(agg, idx, case, res)
     probe.stop()
     agg['counters']['worker_processes_each_with_its_own_hash_seed'] = agg['counters'].get('worker_processes_each_with_its_own_hash_seed', 0) + 1
+    if not __debug__:
+        agg['counters']['worker_processes_with_asserts_stripped'] = agg['counters'].get('worker_processes_with_asserts_stripped', 0) + 1
     agg['entered'] = sorted(probe.entered)
     agg['wall'] = time.time() - t0
     agg['keys'] = sorted(agg['keys'])
@@ -190,7 +192,8 @@ def merge_case(agg, idx, case, res):
                                'verdict': v})
     if v == 'violated' and len(agg['violations']) < 40:
         agg['violations'].append({'idx': idx, 'case': case, 'violations': res['violations'][:5],
-                                  'observed': res.get('obs'), 'hashseed': os.environ.get('PYTHONHASHSEED')})
+                                  'observed': res.get('obs'), 'hashseed': os.environ.get('PYTHONHASHSEED'),
+                                  'optimize': os.environ.get('PYTHONOPTIMIZE') or ''})
     if v == 'inconclusive' and len(agg['inconclusive']) < 10:
         agg['inconclusive'].append({'idx': idx, 'reason': res.get('reason'),
                                     'trace': res.get('trace')})
@@ -276,7 +279,9 @@ def main(argv=None):
         for s in range(nshards):
             # every worker process runs under its own (fixed) string-hash seed: results that depend on the iteration order of
             # sets of names show up as differences between cases instead of staying invisible under one lucky seed
-            env = dict(env, PYTHONHASHSEED=str(s))
+            # ... and every fourth worker with assert statements stripped (python -O): a rejection that only an assert performs
+            # is no rejection for a user who runs optimised
+            env = dict(env, PYTHONHASHSEED=str(s), PYTHONOPTIMIZE=('1' if s % 4 == 3 else ''))
             out = os.path.join(tmp, 'shard%d.json' % s)
             cmd = [sys.executable, '-m', 'vf.runner', args.prop, '--worker', '--tier', args.tier,
                    '--seed', str(args.seed), '--shard', str(s), '--nshards', str(nshards),
@@ -356,7 +361,7 @@ def conclude(prop, args, tot, shard_failures, wall, n_planned):
         path = os.path.join(d, '%s_s%d_i%d.json' % (args.tier, args.seed, v['idx']))
         with open(path, 'w') as f:
             json.dump({'property': pid, 'seed': args.seed, 'tier': args.tier, 'idx': v['idx'],
-                       'case': v['case'], 'violations': v['violations'], 'hashseed': v.get('hashseed'),
+                       'case': v['case'], 'violations': v['violations'], 'hashseed': v.get('hashseed'), 'optimize': v.get('optimize', ''),
                        'observed': v.get('observed'), 'repo': repo.REPO}, f, indent=1, default=repr)
         replay_paths.append(path)
     samples = [trim(s) for s in tot['samples'][:4]]
@@ -421,9 +426,11 @@ def replay(prop, args):
     with open(args.replay) as f:
         rp = json.load(f)
     case = rp['case']
-    if rp.get('hashseed') not in (None, os.environ.get('PYTHONHASHSEED')) and os.environ.get('VF_REPLAY_REEXEC') != '1':
-        # the case was observed in a worker with another string-hash seed: replay it under that seed
-        env = dict(os.environ, PYTHONHASHSEED=str(rp['hashseed']), VF_REPLAY_REEXEC='1')
+    if ((rp.get('hashseed') not in (None, os.environ.get('PYTHONHASHSEED')) or
+         (rp.get('optimize') or '') != (os.environ.get('PYTHONOPTIMIZE') or '')) and os.environ.get('VF_REPLAY_REEXEC') != '1'):
+        # the case was observed in a worker with another string-hash seed / with asserts stripped: replay it the same way
+        env = dict(os.environ, PYTHONHASHSEED=str(rp.get('hashseed') or 0), PYTHONOPTIMIZE=(rp.get('optimize') or ''),
+                   VF_REPLAY_REEXEC='1')
         os.execve(sys.executable, [sys.executable, '-m', 'vf.runner'] + sys.argv[1:], env)
     res = run_one(prop, case)
     print(json.dumps({'verdict': res['verdict'], 'violations': res['violations'],
